@@ -27,8 +27,9 @@ RULE = ("seeded data sets; distinct = canonical case JSON; non-trivial = >=2 qua
         "different SoC or different weights")
 REQUIRED_BUCKETS = ["none-result", "non-working-excluded", "metric-missing", "soc-outside-limits", "equal-limits",
                     "zero-capacity", "zero-total-weight", "soc-on-limit", "monotonicity-checked",
-                    "scale-invariance-checked"]
-REQUIRED_COUNTERS = ["soc_values_compared", "capacity_values_compared"]
+                    "scale-invariance-checked", "integration:cache-dropped-on-stop-working",
+                    "integration:nan-metric-dropped", "integration:silent-battery-timed-out"]
+REQUIRED_COUNTERS = ["soc_values_compared", "capacity_values_compared", "integration_checkpoints"]
 ASSUMPTIONS = ["metric data objects built directly (ComponentMetricsData); timestamps irrelevant"]
 
 
@@ -55,8 +56,11 @@ def gen(rng: Any, tier: str, i: int) -> Any:
                 del d[k]
         bats[str(b)] = d
     working = [b for b in range(1, nb + 1) if rng.random() < 0.75]
-    return {"n": nb, "bats": bats, "working": working, "scale": rng.choice([1e-3, 0.5, 3.0, 1e3]),
+    case = {"n": nb, "bats": bats, "working": working, "scale": rng.choice([1e-3, 0.5, 3.0, 1e3]),
             "bump": rng.choice([0.001, 1.0, 10.0, 50.0])}
+    if i % 25 == 0:
+        case["integration"] = gen_integration(rng)
+    return case
 
 
 def _mk(bats: dict[str, Any]) -> dict[int, Any]:
@@ -109,6 +113,8 @@ def _soc(bats: dict[str, Any], working: list[int]) -> float | None:
 def check(case: dict[str, Any], rec: Any) -> None:
     from frequenz.sdk.timeseries.battery_pool._metric_calculator import CapacityCalculator
 
+    if "integration" in case:
+        check_integration(case["integration"], rec)
     bats, working = case["bats"], case["working"]
     if any(b not in working for b in range(1, case["n"] + 1)):
         rec.bucket("non-working-excluded")
@@ -131,6 +137,9 @@ def check(case: dict[str, Any], rec: Any) -> None:
          "reference": None if n == 0 else (float(used / tot) if tot > 0 else "total weight 0")}
     if (got is None) != (n == 0):
         rec.violation("None-iff-no-battery-qualifies", w)
+        return
+    if got is not None and got != got:
+        rec.violation("soc-is-NaN", w)
         return
     if got is None:
         rec.bucket("none-result")
@@ -181,6 +190,135 @@ def check(case: dict[str, Any], rec: Any) -> None:
                 rec.violation("soc-changes-under-common-capacity-factor", {**w, "factor": c, "after": g3})
     rec.nontrivial(n >= 2)
     rec.observed({"soc": got, "reference": w["reference"], "capacity": None if cs.value is None else cs.value.as_watt_hours()})
+
+
+# ------------------------------------------------------------------ integration tier
+# LatestBatteryMetricsFetcher (NaN metrics dropped, silent batteries -> empty metrics) + SendOnUpdate
+# (cache per battery, cache dropped when a battery stops working) + SoCCalculator, over the fake API.
+
+
+def gen_integration(rng: Any) -> dict[str, Any]:
+    nb = rng.randint(1, 4)
+    ev: list[list[Any]] = []
+    t = 0.0
+    working = list(range(1, nb + 1))
+    ev.append([0.0, "working", list(working)])
+    silent_until = {b: 0.0 for b in range(1, nb + 1)}
+    while t < 12.0:
+        t = round(t + 0.4, 3)
+        for b in range(1, nb + 1):
+            if t < silent_until[b]:
+                continue
+            if rng.random() < 0.04:
+                silent_until[b] = t + rng.choice([1.0, 2.6, 4.0])
+                continue
+            lo = rng.choice([0.0, 10.0, 20.0])
+            hi = rng.choice([80.0, 90.0, 100.0])
+            d: dict[str, Any] = {"cap": rng.choice([1000.0, 5000.0, 98000.0]), "lo": lo, "hi": hi,
+                                 "soc": rng.choice([lo, hi, round(rng.uniform(lo, hi), 3), lo - 5, hi + 5])}
+            for k in list(d):
+                if rng.random() < 0.06:
+                    d[k] = None  # NaN in the message
+            ev.append([round(t + 0.01 * b, 3), "data", b, d])
+        if rng.random() < 0.12:
+            working = [b for b in range(1, nb + 1) if rng.random() < 0.7]
+            ev.append([round(t + 0.2, 3), "working", list(working)])
+    # final full round so that nothing is silent at the checkpoint
+    t = round(t + 0.4, 3)
+    for b in range(1, nb + 1):
+        lo, hi = 10.0, 90.0
+        d = {"cap": rng.choice([1000.0, 5000.0]), "lo": lo, "hi": hi, "soc": round(rng.uniform(0, 100), 3)}
+        if rng.random() < 0.3:
+            d[rng.choice(["cap", "lo", "hi", "soc"])] = None  # NaN in the very last message of this battery
+        ev.append([round(t + 0.01 * b, 3), "data", b, d])
+    return {"nb": nb, "events": ev, "checkpoint": round(t + 1.0, 3)}
+
+
+async def _drive_integration(case: dict[str, Any], out: dict[str, Any]) -> None:
+    import asyncio
+    import math as _m
+    from datetime import datetime, timedelta, timezone
+
+    from frequenz.sdk.timeseries.battery_pool._methods import SendOnUpdate
+    from frequenz.sdk.timeseries.battery_pool._metric_calculator import SoCCalculator
+
+    from .. import batdata, fakes
+
+    loop = asyncio.get_event_loop()
+    nb = case["nb"]
+    groups = [([10 + b], [100 + b]) for b in range(1, nb + 1)]  # component ids: battery 10+b, inverter 100+b
+    comps, conns = fakes.battery_topology(groups)
+    api = fakes.install_connection_manager(comps, conns)
+    ids = {10 + b for b in range(1, nb + 1)}
+    agg = SendOnUpdate(set(ids), SoCCalculator(set(ids)), timedelta(seconds=0.2))
+    rx = agg.new_receiver(limit=1000)
+    t0 = loop.time()
+    for e in case["events"]:
+        dt = t0 + e[0] - loop.time()
+        if dt > 0:
+            await asyncio.sleep(dt)
+        if e[1] == "working":
+            agg.update_working_batteries({10 + b for b in e[2]})
+        else:
+            b, d = e[2], e[3]
+            full = {"cap": d["cap"] if d["cap"] is not None else _m.nan, "soc": d["soc"] if d["soc"] is not None else _m.nan,
+                    "lo": d["lo"] if d["lo"] is not None else _m.nan, "hi": d["hi"] if d["hi"] is not None else _m.nan,
+                    "il": -1000.0, "el": 0.0, "eu": 0.0, "iu": 1000.0}
+            await api.feed(10 + b, batdata.mk_battery(10 + b, full, datetime.now(timezone.utc)))
+    dt = t0 + case["checkpoint"] - loop.time()
+    if dt > 0:
+        await asyncio.sleep(dt)
+    last = None
+    n = 0
+    while rx._q:  # noqa: SLF001
+        last = rx.consume()
+        n += 1
+    out["n_results"] = n
+    out["last"] = None if last is None or last.value is None else last.value.as_percent()
+    out["last_is_none_sample"] = last is not None and last.value is None
+    await agg.stop()
+
+
+def check_integration(case: dict[str, Any], rec: Any) -> None:
+    from ..vloop import run_virtual
+
+    out: dict[str, Any] = {}
+    run_virtual(lambda: _drive_integration(case, out))
+    # reference cache model
+    cache: dict[int, dict[str, Any]] = {}
+    last_data: dict[int, float] = {}
+    working: set[int] = set()
+    MAXAGE = 2.0
+    for e in case["events"]:
+        t = e[0]
+        if e[1] == "working":
+            new = set(e[2])
+            for b in working - new:
+                cache.pop(b, None)
+                rec.bucket("integration:cache-dropped-on-stop-working")
+            working = new
+        else:
+            b, d = e[2], e[3]
+            if b in last_data and t - last_data[b] > MAXAGE + 1e-6:
+                rec.bucket("integration:silent-battery-timed-out")
+            last_data[b] = t
+            if any(v is None for v in d.values()):
+                rec.bucket("integration:nan-metric-dropped")
+            cache[b] = {k: v for k, v in d.items() if v is not None}
+    cp = case["checkpoint"]
+    bats = {str(b): (d if cp - last_data.get(b, -1e9) <= MAXAGE + 1e-6 else {}) for b, d in cache.items()}
+    n, used, tot = _ref_soc(bats, sorted(working))
+    rec.count("integration_checkpoints")
+    w = {"events_tail": case["events"][-8:], "working": sorted(working), "cache_model": bats, "emitted_last": out.get("last"),
+         "n_results": out.get("n_results")}
+    if n == 0:
+        if out.get("last") is not None:
+            rec.violation("integration:value-streamed-although-no-battery-qualifies", w)
+        return
+    exp = float(used / tot) if tot > 0 else None
+    if exp is not None:
+        if out.get("last") is None or not abs(out["last"] - exp) <= 1e-9 * max(1.0, exp):
+            rec.violation("integration:streamed-soc-differs-from-aggregate-of-latest-valid-data", {**w, "expected": exp})
 
 
 FINDINGS: dict[str, Any] = {}
